@@ -479,6 +479,7 @@ def zero_status(e, pc=None, domain=None, n=10, simplify_seconds=8, seed=0, scale
         return "discharged", "sympy", ""
     pts = _points(e, pc, n, seed, domain, extra=scale_exprs or ())
     worst = None
+    nev = 0
     for pt in pts:
         try:
             sub = e.subs(pt)
@@ -491,12 +492,18 @@ def zero_status(e, pc=None, domain=None, n=10, simplify_seconds=8, seed=0, scale
         if val != val or abs(val) > 1e-12 * (scale + 1e-300) + abs_tol:
             return "refuted", "sympy", f"residue {str(e)[:300]} is {val} at {{{', '.join(f'{k}: {v}' for k, v in pt.items())}}}"
         worst = max(worst or 0., abs(val))
+        nev += 1
     r = _with_alarm(simplify_seconds, lambda: sp.simplify(e)) if not abs_tol else None
     if r is not None and r == 0:
         return "discharged", "sympy", ""
     if not pts:
         return "undecided", "sympy", f"no test point satisfies the path condition; residue {str(e)[:200]}"
-    return "discharged", "sympy-points", f"vanishes at {len(pts)} exact points (largest |residue| {worst:.1e}); sympy left {str(r if r is not None else e)[:120]}"
+    if not nev:
+        r2 = _with_alarm(4 * simplify_seconds, lambda: sp.simplify(sp.expand(e.doit())))
+        if r2 is not None and r2 == 0:
+            return "discharged", "sympy", ""
+        return "undecided", "sympy", f"the residue could be neither reduced nor evaluated (uninterpreted functions): {str(r if r is not None else e)[:300]}"
+    return "discharged", "sympy-points", f"vanishes at {nev} exact points (largest |residue| {worst:.1e}); sympy left {str(r if r is not None else e)[:120]}"
 
 
 def eq_status(a, b, **kw):
